@@ -1087,6 +1087,7 @@ class Inliner:
                 cur_events.append({'ev': 'leave', 'inst': inst, 'loc': e2['loc'], 'chain': chain,
                                    'fn': f.q, 'targets': [t.q for t in tg],
                                    'retvar': rv['name'] if rv else None,
+                                   'rettype': tg[0].ret,
                                    'ret_unused': not e.get('used')})
                 if rv is not None and 'callee' in e:
                     repl[(e.get('callee'), e.get('loc'))] = rv
